@@ -274,6 +274,32 @@ func (e *Engine) verifyFn(f *ssa.Function, cfg *FnConfig) *FnResult {
 	}
 	ms := e.solve(res.script, toSolve, e.opts.TimeoutMs, c.modelVars, true)
 	res.SolverMs += ms
+	if e.opts.RefuteQF {
+		// Second chance for a counterexample: under quantified axioms the solvers answer "unknown" instead of "sat".
+		// On the quantifier-free part of the context a model is usually found at once; it is only a candidate
+		// (the dropped axioms may exclude it) that the replay on the real code has to confirm.
+		var unk []*Obl
+		for _, o := range toSolve {
+			if o.Result == "unknown" && len(o.Any) == 0 && o.Expect == "" && !o.final {
+				unk = append(unk, o)
+			}
+		}
+		if len(unk) > 0 && len(unk) <= 80 {
+			for _, o := range unk {
+				o.Result = ""
+			}
+			e.runSolver(solvers[0], qfPart(res.script), unk, e.opts.TimeoutMs, c.modelVars)
+			for _, o := range unk {
+				switch o.Result {
+				case "refuted":
+					o.By += " (quantifier-free part)"
+				default:
+					o.Result = "unknown" // a proof against a weaker context would be sound, but keep the verdicts of the full context
+					o.By = ""
+				}
+			}
+		}
+	}
 	res.Obls = real
 	return res
 }
